@@ -20,6 +20,8 @@ var (
 	// ErrBadRepetition is returned when the right-hand side of the array
 	// repetition operator is invalid; i.e. negative or not an integer.
 	ErrBadRepetition = fmt.Errorf("%w: bad repetition count", ErrPanic)
+	// ErrRangeValue is returned when the step of a numeric range is 0.
+	ErrRangeValue = fmt.Errorf("%w: bad range value", ErrPanic)
 )
 
 // VM is responsible for executing evy programs from bytecode.
@@ -260,6 +262,9 @@ func (vm *VM) Run() error {
 			index := vm.popNumVal()
 			step := vm.popNumVal()
 			stop := vm.popNumVal()
+			if step == 0 {
+				return fmt.Errorf("%w: step cannot be 0, infinite loop", ErrRangeValue)
+			}
 			// stack overflow wont happen because we just popped these values
 			_ = vm.push(stop)
 			_ = vm.push(step)
